@@ -1,0 +1,204 @@
+//go:build verif
+
+package gojq
+
+// Verification hooks (build tag verif). Add-only: nothing here is reachable
+// without the tag, and no existing declaration is changed.
+
+// VerifInstr is one instruction of a compiled query with its operand in a
+// canonical, comparable form: ints for targets/counts, [2]int / [3]int for
+// variable and scope operands, the callee name and argument count for native
+// calls, and the constant itself for push/const/index.
+type VerifInstr struct {
+	Op    string
+	Int   int    // jump/call/fork target, object size
+	Ints  []int  // [2]int variable index or [3]int scope operand
+	Name  string // native callee
+	Argc  int    // native argument count
+	Value any    // constant operand of push/const/index/indexarray
+	Kind  string // "none" | "int" | "ints" | "native" | "value"
+}
+
+// VerifCodes returns the instruction list of compiled code.
+func VerifCodes(c *Code) []VerifInstr {
+	out := make([]VerifInstr, len(c.codes))
+	for i, cd := range c.codes {
+		in := VerifInstr{Op: cd.op.String(), Kind: "none"}
+		switch v := cd.v.(type) {
+		case nil:
+			if cd.op == oppush || cd.op == opconst || cd.op == opindex || cd.op == opindexarray {
+				in.Kind = "value"
+			}
+		case int:
+			if cd.op == oppush || cd.op == opconst || cd.op == opindex || cd.op == opindexarray {
+				in.Kind, in.Value = "value", v
+			} else {
+				in.Kind, in.Int = "int", v
+			}
+		case [2]int:
+			in.Kind, in.Ints = "ints", v[:]
+		case [3]int:
+			in.Kind, in.Ints = "ints", v[:]
+		case [3]any:
+			in.Kind, in.Name, in.Argc = "native", v[2].(string), v[1].(int)
+		default:
+			in.Kind, in.Value = "value", v
+		}
+		out[i] = in
+	}
+	return out
+}
+
+// VerifNativeInfo describes one entry of the native function table.
+type VerifNativeInfo struct {
+	Argcount int // arity bit mask
+	Iter     bool
+	Callback func(any, []any) any // nil for entries handled by the compiler
+}
+
+// VerifNatives returns the native function table.
+func VerifNatives() map[string]VerifNativeInfo {
+	m := make(map[string]VerifNativeInfo, len(internalFuncs))
+	for k, f := range internalFuncs {
+		m[k] = VerifNativeInfo{f.argcount, f.iter, f.callback}
+	}
+	return m
+}
+
+// VerifBuiltinFuncDefs returns the shipped precompiled jq-defined builtins.
+func VerifBuiltinFuncDefs() map[string][]*FuncDef { return builtinFuncDefs }
+
+// VerifStack drives the unexported persistent stack with arbitrary operation
+// sequences.
+type VerifStack struct{ s *stack }
+
+func NewVerifStack() *VerifStack             { return &VerifStack{newStack()} }
+func (s *VerifStack) Push(v any)             { s.s.push(v) }
+func (s *VerifStack) Pop() any               { return s.s.pop() }
+func (s *VerifStack) Top() any               { return s.s.top() }
+func (s *VerifStack) Empty() bool            { return s.s.empty() }
+func (s *VerifStack) Save() (int, int)       { return s.s.save() }
+func (s *VerifStack) Restore(i, l int)       { s.s.restore(i, l) }
+func (s *VerifStack) State() (int, int, int) { return s.s.index, s.s.limit, len(s.s.data) }
+
+// Chain returns the live values from the top of the stack downwards.
+func (s *VerifStack) Chain() []any {
+	var xs []any
+	for i := s.s.index; i >= 0; i = s.s.data[i].next {
+		xs = append(xs, s.s.data[i].value)
+	}
+	return xs
+}
+
+// VerifScopeStack is the same for scopeStack (values are scope ids).
+type VerifScopeStack struct{ s *scopeStack }
+
+func NewVerifScopeStack() *VerifScopeStack        { return &VerifScopeStack{newScopeStack()} }
+func (s *VerifScopeStack) Push(id int)            { s.s.push(scope{id: id}) }
+func (s *VerifScopeStack) Pop() int               { return s.s.pop().id }
+func (s *VerifScopeStack) Empty() bool            { return s.s.empty() }
+func (s *VerifScopeStack) Save() (int, int)       { return s.s.save() }
+func (s *VerifScopeStack) Restore(i, l int)       { s.s.restore(i, l) }
+func (s *VerifScopeStack) State() (int, int, int) { return s.s.index, s.s.limit, len(s.s.data) }
+func (s *VerifScopeStack) Chain() []int {
+	var xs []int
+	for i := s.s.index; i >= 0; i = s.s.data[i].next {
+		xs = append(xs, s.s.data[i].value.id)
+	}
+	return xs
+}
+
+// VerifCompare exposes typeIndex-free access to helper natives used by the
+// correspondence harness without going through a query.
+func VerifParseNumber(s string) any { return toNumber(s) }
+
+// Optimisation switches (C04). VerifOptMask bit i set = rewrite i disabled.
+const (
+	verifOptAssignPath = iota
+	verifOptBindExp
+	verifOptIfExp
+	verifOptIfConst
+	verifOptIndexKey
+	verifOptConstObject
+	verifOptConstArray
+	verifOptUnaryConst
+	verifOptInlineIdentity
+	verifOptInlineOne
+	verifOptIndexExp
+	verifOptTailRec
+	verifOptCodeOps
+	verifOptCount
+)
+
+// VerifOptNames lists the switches in bit order.
+var VerifOptNames = []string{
+	"assign-path", "bind-exp", "if-exp", "if-const", "index-key", "const-object",
+	"const-array", "unary-const", "inline-identity", "inline-one", "index-exp",
+	"tailrec", "codeops",
+}
+
+// VerifOptMask disables compiler rewrites; it must only be changed while no
+// Compile call is running.
+var VerifOptMask uint
+
+func verifOff(i int) bool { return VerifOptMask&(1<<uint(i)) != 0 }
+
+func verifInlineCase(n int) int {
+	if n == 2 && verifOff(verifOptInlineIdentity) || n == 3 && verifOff(verifOptInlineOne) {
+		return -1
+	}
+	return n
+}
+
+const verifHooks = true
+
+// VerifState is the footprint-relevant VM state at the top of an instruction.
+type VerifState struct {
+	PC         int
+	Backtrack  bool
+	Err        bool
+	Forks      int
+	StackIndex int
+	StackLimit int
+	StackLen   int
+	ScopeIndex int
+	ScopeLimit int
+	ScopeLen   int
+	PathIndex  int
+	PathLimit  int
+	PathLen    int
+	Offset     int
+	Values     int
+	Expdepth   int
+	Label      int
+}
+
+// VerifStep, when non-nil, is called at the top of every VM instruction.
+// It is a package variable: set it only in single-goroutine harness runs.
+var VerifStep func(VerifState)
+
+func (env *env) verifState(pc int, backtrack bool, err error) VerifState {
+	return VerifState{
+		PC: pc, Backtrack: backtrack, Err: err != nil, Forks: len(env.forks),
+		StackIndex: env.stack.index, StackLimit: env.stack.limit, StackLen: len(env.stack.data),
+		ScopeIndex: env.scopes.index, ScopeLimit: env.scopes.limit, ScopeLen: len(env.scopes.data),
+		PathIndex: env.paths.index, PathLimit: env.paths.limit, PathLen: len(env.paths.data),
+		Offset: env.offset, Values: len(env.values), Expdepth: env.expdepth, Label: env.label,
+	}
+}
+
+func (env *env) verifStep(pc int, backtrack bool, err error) {
+	if VerifStep != nil {
+		VerifStep(env.verifState(pc, backtrack, err))
+	}
+}
+
+// VerifFootprint reports the state of a live iterator returned by Run
+// (ok = false if the iterator is not a VM environment).
+func VerifFootprint(it Iter) (VerifState, bool) {
+	env, ok := it.(*env)
+	if !ok {
+		return VerifState{}, false
+	}
+	return env.verifState(env.pc, env.backtrack, nil), true
+}
